@@ -32,6 +32,11 @@ pub enum Pattern {
     Simultaneous,
     /// like RequestResponse, but the target stays silent for this many milliseconds before it answers
     LateAnswer(u64),
+    /// both directions stream at once, but the APPLICATION reads nothing before it has written everything (its
+    /// answer piles up in the relay's buffers meanwhile: the upload must go on regardless)
+    DeafApp,
+    /// both directions stream at once, but the TARGET reads nothing before it has written everything
+    DeafTarget,
 }
 
 #[derive(Clone, Copy, Debug, PartialEq, Eq, Hash)]
@@ -420,6 +425,10 @@ async fn target_conn(mut s: TcpStream, _peer: SocketAddr, reg: Arc<Registry>, li
                     _ = async { (&mut reader).await; futures::future::pending::<()>().await } => {}
                 }
             }
+            _ if spec.pattern == Pattern::DeafTarget => {
+                writer.await;
+                reader.await;
+            }
             _ => {
                 tokio::join!(reader, writer);
             }
@@ -578,6 +587,10 @@ pub async fn run_app_flow(reg: Arc<Registry>, flow: Arc<Flow>, client_port: u16,
                     _ = writer => {}
                     _ = async { (&mut reader).await; futures::future::pending::<()>().await } => {}
                 }
+            }
+            _ if spec.pattern == Pattern::DeafApp => {
+                writer.await;
+                reader.await;
             }
             _ => {
                 // AppAfterAll: until the whole answer is in; otherwise the target ends the flow: read until EOF
